@@ -1,10 +1,10 @@
 SPECIFICATION Spec
 CONSTANTS
-  Confs <- Shapes
-  InitRegs <- OneShapeRegs
+  Confs <- ReqShapes
+  InitRegs <- ReqRegs
   ScopeNames = {"a", "ab"}
-  MaxScopeDepth = 3
-  MaxStack = 4
+  MaxScopeDepth = 2
+  MaxStack = 3
   BindVals <- BV12
   MaxBindings = 5
   Enabled = {"Bind", "EnterScope", "ExitScope", "Call"}
@@ -13,7 +13,7 @@ CONSTANTS
   BindApis = {"tuple"}
   FreshConfs = {}
   ConstNames = {}
-  CallsWithReq = FALSE
+  CallsWithReq = TRUE
   DevKwEval = FALSE
 CONSTRAINT ExportConstraint
 CHECK_DEADLOCK FALSE
